@@ -150,6 +150,8 @@ def stepSt0 (s : St) : List String → St × String
       | some v => writeBw s v
   | ["wc", hex] => writeBw s (.str (takeHex hex.toList).1)
   | ["wc"] => writeBw s (.str [])
+  | "wvc" :: toks =>   -- std::vector<const char*>: encoded like a vector of strings
+    writeBw s (.vec (toks.map fun t => .str (if t == "-" then [] else (takeHex t.toList).1)))
   | ["dump"] => (s, s!"{hexOrDash s.bw.buf} n={s.bw.buf.length} sc={s.sc.written}")
   | ["fw_new", cap] =>
     match cap.toNat? with
